@@ -1,6 +1,6 @@
 # Runs every property's thorough tier once, sequentially (each check uses up to 16 processes).
 # With VF_REPO set the checks run against that tree (used with `vp run --with-repo`); otherwise against /repo.
-for p in C16 C20 C10 C09 C18 C03 C15 C19 C01 C07 C08 C14 C06 C13 C04 C12 C05 C02; do
+for p in ${PROPS:-C16 C20 C10 C09 C18 C03 C15 C19 C01 C07 C08 C14 C06 C13 C04 C12 C05 C02}; do
   start=$(date +%s)
   ./check $p --tier thorough --no-evidence > thorough_$p.log 2>&1
   echo "$p exit=$? wall=$(( $(date +%s) - start ))s $(grep SUMMARY thorough_$p.log | cut -c1-160) $(grep -c INCONCLUSIVE thorough_$p.log) inconclusive-lines"
